@@ -74,8 +74,9 @@ def finish(prop, pd, tier, seed, results, wall, write_baseline=False):
                     und.append("%s: solver returned unknown" % ob["name"])
                     ok = False
                 elif ob["status"] == "refuted":
-                    ok = False
                     f = match_finding(findings, ob, r)
+                    if f is None:
+                        ok = False
                     if f is not None:
                         if f["id"] not in known_printed:
                             known_printed.append(f["id"])
